@@ -172,6 +172,12 @@ def deliver (r : MqReq) (label : String) : M Unit := do
     else cacheEnqueue eid (.getResponse rs (parseGetAns label))
     throttleDone th
   | .access eid sub th => cacheEnqueue eid (.accessDone sub (parseAccess label) th)
+  | .httpAccess eid sub h =>
+    -- label: <access label>[|meta=<status>]
+    let (lab, ms) := match label.splitOn "|meta=" with
+      | [l, m] => (l, m.toInt?)
+      | _ => (label, none)
+    cacheEnqueue eid (.httpAccessDone sub h (parseAccess lab) ms)
   | .call eid k => cacheEnqueue eid (.callDone k (parseCallAns label))
   | .query eid rs => cacheEnqueueUnlock eid (.queryAnswer rs (parseQAns label))
   | .tokenAuth => pure ()
@@ -244,6 +250,12 @@ def stimulus (line : String) : M Unit := do
     if hint.startsWith "reply=" then
       sendFrame (cidOf c) s!"res {(hint.drop 6).toString} err system.invalidRequest"
     else pure ()
+  | ["http", h, "GET", rid] =>
+    -- a temporary connection (protocol latest) carrying one request
+    let cid ← newConn
+    modConn cid fun c => { c with protocol := 1002003 }
+    let _ ← connEnqueue cid (.httpGet ((h.drop 1).toString.toNat?.getD 0) rid)
+  | ["http", h, "GET404"] => emit s!"H {h} status=404 body=err:system.notFound"
   | ["disconnect", c] => let _ ← connEnqueue (cidOf c) .dispose
   | ["answer", subject, payload, label, occ] =>
     let g ← get
@@ -313,7 +325,9 @@ def snapshot (g : Gw) : List String :=
       (if e.links.isEmpty then [] else
         ["links=" ++ ",".intercalate (sortStrs (e.links.map fun (q, rs) => q ++ ">" ++ (tget e.ress rs).query))])
     " ".intercalate parts
-  let conns := (g.conns.filter fun c => g.live.contains c.cid).map fun c =>
+  let liveConns := ((g.conns.filter fun c => g.live.contains c.cid).toArray.qsort
+    (fun a b => cname a.cid < cname b.cid)).toList
+  let conns := liveConns.map fun c =>
     let head := s!"C {cname c.cid} token={if c.hasToken then c.token else "nil"} tid={c.tid} ver={c.protocol}"
     let subs := (sortKV c.subs).map fun (_, uid) =>
       let s := tget c.objs uid
